@@ -46,3 +46,5 @@ for mid in ids:
     meta["detected_by_quick_check"] = "yes" if any(v.startswith("VIOLATION") for k, v in res.items() if not k.endswith("_excerpt")) else ("no" if checks else "check not built yet")
     json.dump(meta, open(os.path.join(d, "meta.json"), "w"), indent=1)
     print(mid, {k: v for k, v in res.items() if not k.endswith("_excerpt")})
+# leave the generated files in the state of the unmodified tree
+subprocess.run([os.path.join(ROOT, "tools", "rs2coq", "target", "debug", "rs2coq"), "/repo", os.path.join(ROOT, "coq", "gen")], check=True)
